@@ -15,6 +15,7 @@ import (
 
 type Clause struct {
 	AtReturn int // >0: the clause applies only at the k-th return statement (source order)
+	Cfg      string // non-empty: the clause applies only in this build configuration
 	Kind  string // requires ensures invariant assert
 	Tags  []string
 	Label string
@@ -57,6 +58,7 @@ type AssertAt struct {
 	Callee string
 	K      int
 	Clause *Clause
+	Split  *SExpr // optional case split: the assertion is proved separately under Split and under !Split
 }
 
 type PureFn struct {
@@ -93,8 +95,16 @@ type Contracts struct {
 	Shapes map[string]*ShapeDecl            // typekey.field
 	Impls  map[string][]string
 	OtherImpl map[string][]string
+	GlobalInvs []*GlobalInv
 	Lemmas []*Lemma
 	Errs   []string
+}
+
+// GlobalInv is a fact about package-level variables established by the package initializer and
+// assumed at the entry of every other function (package-level variables are not written outside init: C17 sweep).
+type GlobalInv struct {
+	Pkg    string
+	Clause *Clause
 }
 
 type Lemma struct {
@@ -164,12 +174,26 @@ func isBasicTypeName(s string) bool {
 }
 
 // splitHead parses "kind[tags label] rest".
+func clauseCfg(c *Clause) {
+	if strings.HasPrefix(c.Label, "cfg:") {
+		c.Cfg = c.Label[4:]
+		c.Label = ""
+	}
+	var keep []string
+	for _, t := range c.Tags {
+		keep = append(keep, t)
+	}
+	c.Tags = keep
+}
+
 func splitHead(s string) (tags []string, label string, rest string) {
 	s = strings.TrimSpace(s)
 	if strings.HasPrefix(s, "[") {
 		end := strings.Index(s, "]")
 		for _, f := range strings.FieldsFunc(s[1:end], func(r rune) bool { return r == ',' || r == ' ' }) {
 			if tagRe.MatchString(f) {
+				tags = append(tags, f)
+			} else if strings.HasPrefix(f, "cfg:") {
 				tags = append(tags, f)
 			} else {
 				label = f
@@ -235,7 +259,15 @@ func (cs *Contracts) LoadFile(path, pkg string) error {
 				cs.errf(path, it.line, "%v", err)
 				return nil
 			}
-			return &Clause{Kind: kind, Tags: tags, Label: label, Expr: e, Text: ex, File: path, Line: it.line}
+			cl := &Clause{Kind: kind, Label: label, Expr: e, Text: ex, File: path, Line: it.line}
+			for _, t := range tags {
+				if strings.HasPrefix(t, "cfg:") {
+					cl.Cfg = t[4:]
+				} else {
+					cl.Tags = append(cl.Tags, t)
+				}
+			}
+			return cl
 		}
 		atRet := 0
 		if strings.HasPrefix(kw, "ensures@") {
@@ -389,9 +421,31 @@ func (cs *Contracts) LoadFile(path, pkg string) error {
 				cs.errf(path, it.line, "bad assert ordinal")
 				continue
 			}
-			c := mk("assert", fs[3])
+			body := fs[3]
+			var split *SExpr
+			if i := strings.Index(body, " split("); i >= 0 && strings.HasPrefix(strings.TrimSpace(body), "[") {
+				// [tags] split(cond) expr
+				j := i + len(" split(")
+				depth := 1
+				k2 := j
+				for ; k2 < len(body) && depth > 0; k2++ {
+					if body[k2] == '(' {
+						depth++
+					} else if body[k2] == ')' {
+						depth--
+					}
+				}
+				se, err := ParseSpec(body[j : k2-1])
+				if err != nil {
+					cs.errf(path, it.line, "%v", err)
+					continue
+				}
+				split = se
+				body = body[:i] + body[k2:]
+			}
+			c := mk("assert", body)
 			if c != nil {
-				cur.Asserts = append(cur.Asserts, &AssertAt{Callee: fs[1], K: k, Clause: c})
+				cur.Asserts = append(cur.Asserts, &AssertAt{Callee: fs[1], K: k, Clause: c, Split: split})
 			}
 		case "split":
 			if cur == nil {
@@ -486,6 +540,12 @@ func (cs *Contracts) LoadFile(path, pkg string) error {
 			}
 			tk := qualifyType(pkg, lhs[:dot])
 			cs.Shapes[tk+"."+lhs[dot+1:]] = &ShapeDecl{TypeKey: tk, Field: lhs[dot+1:], Expr: e}
+		case "globalinv":
+			cur = nil
+			c := mk("globalinv", rest)
+			if c != nil {
+				cs.GlobalInvs = append(cs.GlobalInvs, &GlobalInv{Pkg: pkg, Clause: c})
+			}
 		case "otherimplements":
 			// otherimplements IFACE: IFACE2, ...   the opaque dynamic types of IFACE values also implement IFACE2
 			i := strings.Index(rest, ":")
